@@ -316,7 +316,10 @@ class Message(MessageBase):  # add _expired attr
             """Return the packet's age as fraction of its 'normal' life span."""
             if not lifespan:  # e.g. I|1F09 with a countdown of 0 seconds
                 return self.HAS_EXPIRED
-            return (self._gwy._dt_now() - self.dtm - _TD_SECS_003) / lifespan
+            # never negative: -1 is the CANT_EXPIRE sentinel (e.g. a 313F read at age 0)
+            return max(
+                0.0, (self._gwy._dt_now() - self.dtm - _TD_SECS_003) / lifespan
+            )
 
         # 1. Look for easy win...
         if self._fraction_expired is not None:
